@@ -10,7 +10,7 @@ TRUSTED_BASE = [
     "Coq 8.16.1 kernel (coqc full .vo build); vm_compute used for the closed refutation witnesses, the non-vacuity examples and constant sanity lemmas",
     "Flocq 4.1.0 (Core, IEEE754.BinarySingleNaN/Binary/Bits) as installed; its theorems depend on the standard library's real-number axioms: "
     "ClassicalDedekindReals.sig_forall_dec, ClassicalDedekindReals.sig_not_dec, FunctionalExtensionality.functional_extensionality_dep (and Classical_Prop.classic where Print Assumptions lists it)",
-    "hand-written models coq/Model/FloatInterval.v (src/variables/domain/float_interval.rs:1-318, src/optimization/ulp_utils.rs:12-58) and coq/Model/CtxFloat.v "
+    "hand-written models coq/Model/FloatInterval.v (src/variables/domain/float_interval.rs:1-318, src/optimization/ulp_utils.rs:12-60) and coq/Model/CtxFloat.v "
     "(src/variables/views.rs:215-269, 298-320, 356-444, 473-495 and the ceil/floor `as i32` conversions of 275, 450) over coq/Model/B64.v (modelled, not verified): tied by this run's bit-exact differential",
     "f64 literals enter the model as bit patterns scraped from the Rust source by tools/gen_consts.py (Generated/Consts.v: step ladder, precision table, 2.0, 3.0, 1e-5, 1.0)",
     "extraction: ExtrOcamlBasic only, no Extract Constant; Flocq's binary_float stays an extracted inductive; ocamlfind ocamlopt 4.13.1; ocaml/fi_cmd.ml glue (hex parsing/printing)",
@@ -24,7 +24,7 @@ ASSUMPTIONS = [
     "(decidable predicate magn_b, also extracted and used to classify cases): all inputs finite, min <= max, 2^-60 <= step <= 2^60, |min|,|max|,|v| <= 2^50*step; "
     "outside Magn they are refuted by closed witnesses (known class outside_magn)",
     "order-only theorems (fi_prims_inside, fi_next_prev_mono, fi_remove_below_above_no_widen, tsm_fi_spec, tsm_f_no_invert) need only: finite min/max/step, min <= max, step > 0, finite (or just non-NaN) argument",
-    "three findings are recorded as known classes: outside_magn (widening to +-inf, event without change, loss beyond one step), int_bound_tol_invert (inverted interval after an int bound), next_neg_zero (next(-0.0) leaves the interval)",
+    "two findings are recorded as known classes: outside_magn (widening to +-inf, event without change, loss beyond one step), int_bound_tol_invert (inverted interval after an int bound); next(-0.0) leaving the interval was repaired in /repo aed2bd1 (fixed entry in known_findings.txt)",
     "a Rust panic (f64::clamp with min > max or NaN bound, reachable only from an inverted or NaN interval) is modelled as None and compared as PANIC",
 ]
 RULE = ("fi: constructor (new / with_step / with_step_unchecked) + sequence of FloatInterval method calls, arguments as bit patterns near k*step +- j ulp, "
@@ -459,9 +459,9 @@ def judge_fi(case, impl, spec):
         if ok_iv and o[0] in ("next", "prev") and x is not None and mn <= x <= mx:
             q = h2q(r)
             if q is None or q < mn or q > mx:
-                return ("NEXT-NEGZERO " if (o[0] == "next" and o[1] == "8000000000000000") else "") + "%s result outside [min,max]" % o[0]
+                return "%s result outside [min,max]" % o[0]
             if o[0] == "next" and q < x:
-                return ("NEXT-NEGZERO " if o[1] == "8000000000000000" else "") + "next(x) < x"
+                return "next(x) < x"
             if o[0] == "prev" and q > x: return "prev(x) > x"
         if ok_iv and o[0] in ("below", "above") and x is not None:
             nmn, nmx = h2q(after[0]), h2q(after[1])
@@ -470,24 +470,15 @@ def judge_fi(case, impl, spec):
         st = after
     return None
 
-def classify_fi(case, impl, cls):
-    """known class next_neg_zero: the first property failure of this case is next(-0.0)"""
-    try:
-        w = judge_fi(case, impl, "judge")
-    except Exception:
-        w = None
-    return "next_neg_zero" if (w and w.startswith("NEXT-NEGZERO")) else cls
-
 def split_plain(model_line):
     # model output only; the judge needs a non-None spec part to be called
     return model_line, "judge", None
 
 FAMILIES = [
     Family("arith_layer", "fi", gen_arith, normal=normal),
-    Family("fi_methods", "fi", gen_fi, normal=normal, split=split_plain, prop_judge=judge_fi),   # .classify set below
+    Family("fi_methods", "fi", gen_fi, normal=normal, split=split_plain, prop_judge=judge_fi),
     Family("ctx_float", "ctxf", gen_ctxf, normal=normal, nontrivial=nt_ctx, split=split_ctxf, prop_judge=prop_judge_ctxf),
     Family("ctx_float_huge", "ctxf", gen_ctxf_huge, normal=normal, nontrivial=nt_ctx, split=split_ctxf, prop_judge=prop_judge_ctxf),
     Family("ctx_int_floatbound", "ctxf", gen_ctx_int, normal=normal, nontrivial=nt_ctx, split=split_plain, prop_judge=judge_ctx_int),
 ]
 
-FAMILIES[1].classify = classify_fi   # runner hook: (case, impl, cls) -> cls
